@@ -7,6 +7,7 @@ import (
 	"fmt"
 	"math/rand"
 	"net/url"
+	"regexp"
 	"servitor/ansi"
 	"servitor/jtp"
 	"servitor/pub"
@@ -69,6 +70,37 @@ func annotateDocs(op Op) {
 		}
 	}
 	op["has_relative_refs"] = relative
+	/* oracle: source.ResolveReference(ref) for every id a document carries (the only values that
+	   are ever passed on as `source`) and every string of the world, listed wherever it is not
+	   the reference itself (relative references, dot segments) */
+	ids := map[string]bool{}
+	refStrs := map[string]bool{}
+	for _, d := range decode {
+		if pair, ok := d.([]any); ok && pair[1] != nil {
+			collectIds(pair[1].(map[string]any)["tree"], ids)
+			collectRefStrings(pair[1].(map[string]any)["tree"], refStrs)
+		}
+	}
+	refs := []any{}
+	for idStr := range ids {
+		base, err := url.Parse(idStr)
+		if err != nil {
+			continue
+		}
+		for str := range refStrs {
+			ref, err := url.Parse(str)
+			if err != nil {
+				continue
+			}
+			if t := base.ResolveReference(ref); t.String() != ref.String() {
+				refs = append(refs, []any{base.String(), ref.String(), t.String()})
+				if _, ok := tbl[t.String()]; !ok {
+					tbl[t.String()] = urlRecord(t)
+				}
+			}
+		}
+	}
+	op["refresolve"] = refs
 	/* oracle: time.Parse(RFC3339) of every (scrubbed) string, as UnixNano */
 	times := []any{}
 	for str := range strs {
@@ -77,6 +109,70 @@ func annotateDocs(op Op) {
 		}
 	}
 	op["timetable"] = times
+}
+
+/* every string under an "id" key of a typed tree (see tree()): {"o":[[key, value]...]}, {"a":[...]}, {"s":"..."} */
+func collectIds(t any, out map[string]bool) {
+	m, ok := t.(map[string]any)
+	if !ok {
+		return
+	}
+	if kvs, ok := m["o"].([]any); ok {
+		for _, kv := range kvs {
+			pair, ok := kv.([]any)
+			if !ok || len(pair) != 2 {
+				continue
+			}
+			if k, _ := pair[0].(string); k == "id" {
+				if v, ok := pair[1].(map[string]any); ok {
+					if str, ok := v["s"].(string); ok {
+						out[str] = true
+						out[ansi.Scrub(str)] = true
+					}
+				}
+			}
+			collectIds(pair[1], out)
+		}
+	}
+	if arr, ok := m["a"].([]any); ok {
+		for _, e := range arr {
+			collectIds(e, out)
+		}
+	}
+}
+
+/*
+every string of a typed tree that may be used as a reference: all but the values of the keys
+
+	that hold text (the code never dereferences those)
+*/
+func collectRefStrings(t any, out map[string]bool) {
+	m, ok := t.(map[string]any)
+	if !ok {
+		return
+	}
+	if str, ok := m["s"].(string); ok {
+		out[str] = true
+		out[ansi.Scrub(str)] = true
+	}
+	if kvs, ok := m["o"].([]any); ok {
+		for _, kv := range kvs {
+			pair, ok := kv.([]any)
+			if !ok || len(pair) != 2 {
+				continue
+			}
+			switch k, _ := pair[0].(string); k {
+			case "name", "stamp", "content", "type", "preferredUsername", "summary", "published":
+				continue
+			}
+			collectRefStrings(pair[1], out)
+		}
+	}
+	if arr, ok := m["a"].([]any); ok {
+		for _, e := range arr {
+			collectRefStrings(e, out)
+		}
+	}
 }
 
 func dumpList(items []pub.Tangible) []any {
@@ -121,18 +217,31 @@ func init() {
 		op["before_sub"] = pre
 		item := pub.New(start, nil)
 		res := map[string]any{"item": pub.VerifDump(item)}
+		/* the first request, then further ones on the continuation (page and offset) it returned */
+		listing := func(c pub.Container) {
+			items, next, off := c.Harvest(uint(I(op, "harvest")), 0)
+			res["children"] = dumpList(items)
+			res["more"] = next != nil
+			rounds := []any{}
+			for _, q := range L(op, "more") {
+				if next == nil {
+					break
+				}
+				items, next, off = next.Harvest(uint(I(Op{"v": q}, "v")), off)
+				rounds = append(rounds, []any{dumpList(items), next != nil})
+			}
+			if len(L(op, "more")) > 0 {
+				res["rounds"] = rounds
+			}
+		}
 		if t, ok := item.(pub.Tangible); ok {
 			if c := t.Children(); c != nil {
-				items, next, _ := c.Harvest(uint(I(op, "harvest")), 0)
-				res["children"] = dumpList(items)
-				res["more"] = next != nil
+				listing(c)
 			}
 			ps, _ := t.Parents(uint(I(op, "parents")))
 			res["parents"] = dumpList(ps)
 		} else if c, ok := item.(*pub.Collection); ok {
-			items, next, _ := c.Harvest(uint(I(op, "harvest")), 0)
-			res["children"] = dumpList(items)
-			res["more"] = next != nil
+			listing(c)
 		}
 		op["canaryhits"] = s.canaryHits()
 		s.takeLog()
@@ -148,6 +257,8 @@ type worldGen struct {
 	routes []any
 	n      int
 	query  bool // every object of a host lives at the same path; identifiers differ in the query only
+	rel    bool // references are sometimes written relative to the referring object
+	quiet  bool // documents served right now are never replaced by a 404
 }
 
 /* the last path segment an object called `name` is served under */
@@ -173,7 +284,7 @@ func (g *worldGen) serve(h int, name string, fields map[string]any) string {
 	fields["name"] = fmt.Sprintf("%s#%d@H%d", name, g.n, h)
 	fields["stamp"] = fmt.Sprintf("H%d", h)
 	status := "HTTP/1.0 200 OK"
-	if g.r.Intn(25) == 0 {
+	if g.r.Intn(25) == 0 && !g.quiet {
 		status = "HTTP/1.0 404 Gone"
 	}
 	resp := status + "\r\nContent-Type: application/activity+json\r\n\r\n" + jsonDoc(fields)
@@ -236,13 +347,82 @@ func (g *worldGen) actor(h int, name string, idHost int) (string, map[string]any
 	return u, fields
 }
 
-/* a reference to an object: by URL, embedded in full, as a stub, or through a redirect */
-func (g *worldGen) refTo(fromHost int, url string, fields map[string]any) any {
-	switch weighted(g.r, 5, 3, 2, 1) {
+var hostRe = regexp.MustCompile(`^https://\{H(\d)\}`)
+
+/*
+the same URL written differently: with userinfo, another letter case or another scheme, with a
+fragment, naming the host's address under another port (a different authority: nobody listens
+there) or no port at all; relative to the referring object (when `g.rel`), with dot segments
+*/
+func (g *worldGen) vary(u string, fromHost int) string {
+	if g.r.Intn(5) != 0 {
+		return u
+	}
+	switch g.r.Intn(12) {
 	case 0:
-		return url
+		return strings.Replace(u, "https://", "https://user@", 1)
 	case 1:
-		return g.embed(fromHost, fields)
+		return strings.Replace(u, "https://", "https://u:p@", 1)
+	case 2:
+		return strings.Replace(u, "https://", "HTTPS://", 1)
+	case 3:
+		return strings.Replace(u, "https://", "http://", 1)
+	case 4:
+		return hostRe.ReplaceAllString(u, "https://{I$1}:1")
+	case 5:
+		return hostRe.ReplaceAllString(u, "https://{I$1}")
+	case 6:
+		return u + "#frag"
+	}
+	if !g.rel {
+		return u
+	}
+	return g.relative(u, fromHost)
+}
+
+/*
+`u` written relative to an object that lives on `fromHost` (wrong on purpose when `u` lives elsewhere
+
+	and the spelling has no host)
+*/
+func (g *worldGen) relative(u string, fromHost int) string {
+	sameHost := strings.HasPrefix(u, fmt.Sprintf("https://{H%d}/", fromHost))
+	path := hostRe.ReplaceAllString(u, "")
+	switch g.r.Intn(7) {
+	case 0:
+		return path // "/op/name": right only when the referring object lives on the same host
+	case 1:
+		return strings.TrimPrefix(path, "/{OP}/") // "name" / "o?n=name"
+	case 2:
+		return strings.TrimPrefix(u, "https:") // "//host/op/name"
+	case 3:
+		return "./" + strings.TrimPrefix(path, "/{OP}/")
+	case 4:
+		return strings.Replace(u, "/{OP}/", "/{OP}/x/../", 1) // absolute, with dot segments
+	case 5:
+		return "../{OP}/" + strings.TrimPrefix(path, "/{OP}/")
+	}
+	if sameHost && g.query {
+		return strings.TrimPrefix(path, "/{OP}/o") // "?n=name": the same path, another query
+	}
+	return u
+}
+
+/*
+a reference to an object: by URL (in any spelling), embedded in full (with or without its id),
+
+	as a stub, or through a redirect
+*/
+func (g *worldGen) refTo(fromHost int, url string, fields map[string]any) any {
+	switch weighted(g.r, 10, 5, 4, 2, 2) {
+	case 0:
+		return g.vary(url, fromHost)
+	case 1:
+		e := g.embed(fromHost, fields)
+		if id, ok := e["id"].(string); ok && g.r.Intn(6) == 0 {
+			e["id"] = g.vary(id, fromHost) // the copy spells the id differently
+		}
+		return e
 	case 2:
 		stub := map[string]any{"id": fields["id"], "type": fields["type"]}
 		if g.r.Intn(2) == 0 {
@@ -252,17 +432,60 @@ func (g *worldGen) refTo(fromHost int, url string, fields map[string]any) any {
 			/* a stub naming the URL the object is really served at (its document may claim another id) */
 			stub["id"] = url
 		}
+		if id, ok := stub["id"].(string); ok {
+			stub["id"] = g.vary(id, fromHost)
+		}
 		return stub
+	case 4:
+		/* an inline copy that carries no id at all: nothing says where it lives */
+		e := g.embed(fromHost, fields)
+		delete(e, "id")
+		return e
 	}
 	g.n++
 	return g.redirect(g.r.Intn(simHosts), fmt.Sprintf("redir%d", g.n), url)
 }
 
+/* a field that holds one reference, written the way a list-valued field would be */
+func (g *worldGen) listed(ref any, other any) any {
+	switch g.r.Intn(14) {
+	case 0:
+		return []any{ref}
+	case 1:
+		return []any{ref, other}
+	case 2:
+		return []any{}
+	}
+	return ref
+}
+
+/* what a hostile or sloppy server may put into a list of references besides references */
+func (g *worldGen) junk() any {
+	if g.rel && g.r.Intn(3) == 0 {
+		/* strings that are references all the same: the empty one names the referring object itself */
+		return pick(g.r, []any{"", "not a url", "#top", "?n=alice", "."})
+	}
+	return pick(g.r, []any{nil, 5, map[string]any{}, []any{}, true, "https://{H0}/{OP}/no-such-object", map[string]any{"type": "Note"}, "https://[::1/{OP}/bad", "mailto:alice@example.org"})
+}
+
 func genPubWorld(r *rand.Rand, n int, emit func(Op)) {
 	for i := 0; i < n; i++ {
-		g := &worldGen{r: r, query: r.Intn(4) == 0}
+		if r.Intn(6) == 0 {
+			genCollWorld(r, emit)
+			continue
+		}
+		g := &worldGen{r: r, query: r.Intn(4) == 0, rel: relativeRefs && r.Intn(3) == 0}
 		home := r.Intn(simHosts)
 		evil := (home + 1 + r.Intn(simHosts-1)) % simHosts
+		if r.Intn(8) == 0 {
+			/* the attacker lives at the same address under another port (host 5 is host 0's
+			   address with another port): authorities that differ by port only */
+			if r.Intn(2) == 0 {
+				home, evil = 0, hostPortOnly
+			} else {
+				home, evil = hostPortOnly, 0
+			}
+		}
 		/* the legitimate cast */
 		aliceURL, alice := g.actor(home, "alice", home)
 		malloryURL, mallory := g.actor(evil, "mallory", evil)
@@ -270,8 +493,20 @@ func genPubWorld(r *rand.Rand, n int, emit func(Op)) {
 		/* forged actor document: served by evil, claims to be alice */
 		forgedAliceURL := g.serve(evil, "forged-alice", map[string]any{"type": "Person", "id": alice["id"]})
 		_ = forgedAliceURL
+		/* another document on alice's own host that says it is alice (a second path for the same
+		   object, as far as anyone can tell) */
+		/* the attacker's own actor and note under the very paths alice and the root note have at home */
+		twinAliceURL, twinAlice := g.actor(evil, "alice", evil)
+		twinRoot := map[string]any{"type": "Note", "id": g.url(evil, "root"), "content": "<p>twin</p>"}
+		twinRootURL := g.serve(evil, "root", twinRoot)
+		aliasAliceURL := g.serve(home, "alice-too", map[string]any{"type": "Person", "id": alice["id"], "preferredUsername": "alice"})
 		author := func(h int) any {
-			switch weighted(r, 6, 2, 1, 1, 1, 1) {
+			switch weighted(r, 6, 2, 1, 1, 1, 1, 1, 1) {
+			case 7:
+				/* a list with entries that are no references at all, before and after a real one */
+				return []any{g.junk(), g.refTo(h, aliceURL, alice), g.junk()}
+			case 6:
+				return pick(r, []any{aliasAliceURL, map[string]any{"id": aliasAliceURL}})
 			case 5:
 				/* a URL on alice's own host that redirects to the attacker's document claiming her id */
 				g.n++
@@ -317,14 +552,16 @@ func genPubWorld(r *rand.Rand, n int, emit func(Op)) {
 		depth := r.Intn(4)
 		for d := 0; d < depth; d++ {
 			h := pick(r, []int{home, home, evil})
-			prevURL, prev = mkNote(h, fmt.Sprintf("reply%d", d), map[string]any{"inReplyTo": g.refTo(h, prevURL, prev)})
+			prevURL, prev = mkNote(h, fmt.Sprintf("reply%d", d), map[string]any{"inReplyTo": g.listed(g.refTo(h, prevURL, prev), rootURL)})
 		}
 		/* replies collection of root: genuine and impostor comments */
 		comments := []any{}
 		for c := 0; c < r.Intn(5); c++ {
 			h := pick(r, []int{home, evil})
 			var target any = g.refTo(h, rootURL, root)
-			switch weighted(r, 6, 2, 1) {
+			switch weighted(r, 6, 2, 1, 1) {
+			case 3:
+				target = g.refTo(h, twinRootURL, twinRoot) // the same path on the other host
 			case 1:
 				if len(notes) > 1 {
 					k := 1 + r.Intn(len(notes)-1)
@@ -335,10 +572,13 @@ func genPubWorld(r *rand.Rand, n int, emit func(Op)) {
 			}
 			extra := map[string]any{}
 			if target != nil {
-				extra["inReplyTo"] = target
+				extra["inReplyTo"] = g.listed(target, g.junk())
 			}
 			cu, cf := mkNote(h, fmt.Sprintf("comment%d", c), extra)
 			comments = append(comments, g.refTo(home, cu, cf))
+			if r.Intn(8) == 0 {
+				comments = append(comments, g.junk())
+			}
 		}
 		if r.Intn(3) != 0 {
 			page := map[string]any{"type": "CollectionPage", "items": comments}
@@ -346,7 +586,7 @@ func genPubWorld(r *rand.Rand, n int, emit func(Op)) {
 			/* re-serve root with the replies (same route, replaced) */
 			root["name"] = fmt.Sprintf("root@H%d", home)
 			for k, rt := range g.routes {
-				if rt.(map[string]any)["path"] == "/{OP}/"+g.seg("root") {
+				if rt.(map[string]any)["path"] == "/{OP}/"+g.seg("root") && rt.(map[string]any)["h"] == home {
 					g.routes[k] = map[string]any{"h": home, "path": "/{OP}/" + g.seg("root"), "resp": "HTTP/1.0 200 OK\r\nContent-Type: application/activity+json\r\n\r\n" + jsonDoc(root), "fault": ""}
 				}
 			}
@@ -358,7 +598,11 @@ func genPubWorld(r *rand.Rand, n int, emit func(Op)) {
 			h := pick(r, []int{home, home, evil})
 			k := r.Intn(len(notes))
 			var actor any = g.refTo(h, aliceURL, alice)
-			switch weighted(r, 6, 2, 1, 1, 2, 1) {
+			switch weighted(r, 6, 2, 1, 1, 2, 1, 1, 1) {
+			case 7:
+				actor = pick(r, []any{g.junk(), g.refTo(h, twinAliceURL, twinAlice), g.refTo(h, twinAliceURL, twinAlice)})
+			case 6:
+				actor = pick(r, []any{aliasAliceURL, map[string]any{"id": aliasAliceURL}})
 			case 5:
 				actor = map[string]any{"id": forgedAliceURL}
 			case 4:
@@ -372,7 +616,7 @@ func genPubWorld(r *rand.Rand, n int, emit func(Op)) {
 			}
 			fields := map[string]any{"type": pick(r, []string{"Create", "Announce", "Like"}), "id": g.url(h, fmt.Sprintf("act%d", a)), "object": g.refTo(h, notes[k], noteFields[k])}
 			if actor != nil {
-				fields["actor"] = actor
+				fields["actor"] = g.listed(actor, malloryURL)
 			}
 			if r.Intn(5) == 0 {
 				/* Lemmy style: the object is an inline Create, which is unwrapped; the wrapper may
@@ -389,6 +633,10 @@ func genPubWorld(r *rand.Rand, n int, emit func(Op)) {
 			au := g.serve(h, fmt.Sprintf("act%d", a), fields)
 			acts = append(acts, g.refTo(home, au, fields))
 			actFields = append(actFields, fields)
+			if r.Intn(8) == 0 {
+				/* entries that are no activities: nothing, numbers, lists, a bare note, a note by reference */
+				acts = append(acts, pick(r, []any{g.junk(), g.junk(), []any{au}, g.embed(home, noteFields[k]), notes[k]}))
+			}
 		}
 		/* mallory's outbox: her own activity plus alice's (by reference): impostors there */
 		mact := g.serve(evil, "mact", map[string]any{"type": "Create", "id": g.url(evil, "mact"), "actor": malloryURL, "object": notes[0]})
@@ -402,7 +650,7 @@ func genPubWorld(r *rand.Rand, n int, emit func(Op)) {
 		mallory["outbox"] = moutbox
 		mallory["name"] = fmt.Sprintf("mallory@H%d", evil)
 		for k, rt := range g.routes {
-			if rt.(map[string]any)["path"] == "/{OP}/"+g.seg("mallory") {
+			if rt.(map[string]any)["path"] == "/{OP}/"+g.seg("mallory") && rt.(map[string]any)["h"] == evil {
 				g.routes[k] = map[string]any{"h": evil, "path": "/{OP}/" + g.seg("mallory"), "resp": "HTTP/1.0 200 OK\r\nContent-Type: application/activity+json\r\n\r\n" + jsonDoc(mallory), "fault": ""}
 			}
 		}
@@ -446,7 +694,7 @@ func genPubWorld(r *rand.Rand, n int, emit func(Op)) {
 		alice["name"] = fmt.Sprintf("alice@H%d", home)
 		alice["stamp"] = fmt.Sprintf("H%d", home)
 		for k, rt := range g.routes {
-			if rt.(map[string]any)["path"] == "/{OP}/"+g.seg("alice") {
+			if rt.(map[string]any)["path"] == "/{OP}/"+g.seg("alice") && rt.(map[string]any)["h"] == home {
 				g.routes[k] = map[string]any{"h": home, "path": "/{OP}/" + g.seg("alice"), "resp": "HTTP/1.0 200 OK\r\nContent-Type: application/activity+json\r\n\r\n" + jsonDoc(alice), "fault": ""}
 			}
 		}
@@ -466,6 +714,128 @@ func genPubWorld(r *rand.Rand, n int, emit func(Op)) {
 			}
 		}
 		starts = append(starts, malloryURL, malloryURL, moutbox)
-		emit(Op{"op": "pubworld", "routes": g.routes, "start": pick(r, starts), "before": before, "harvest": 1 + r.Intn(8), "parents": r.Intn(5)})
+		emit(Op{"op": "pubworld", "routes": g.routes, "start": pick(r, starts), "before": before, "harvest": pick(r, []int{0, 1, 1 + r.Intn(8), 1 + r.Intn(8), 1 + r.Intn(8)}), "more": moreAmounts(r), "parents": r.Intn(5)})
 	}
+}
+
+/* relative references in generated worlds (the model resolves them through an oracle table) */
+const relativeRefs = true
+
+/* further requests on the continuation of the first harvest */
+func moreAmounts(r *rand.Rand) []any {
+	out := []any{}
+	if r.Intn(2) == 0 {
+		for k := 0; k < 1+r.Intn(3); k++ {
+			out = append(out, pick(r, []int{0, 1, 2, 3, 5}))
+		}
+	}
+	return out
+}
+
+/*
+a collection opened directly whose pages live at URLs of their own, on several hosts: chains
+that end, chains that come back to an earlier page (to itself, to the first page, to the root,
+A -> B -> A), `next` on another host or behind a redirect, pages with and without ids (or with an
+id on a host that did not serve them), `first` on pages and `next` on roots, empty pages in runs
+around the threshold, a size that is not the number of items
+*/
+func genCollWorld(r *rand.Rand, emit func(Op)) {
+	g := &worldGen{r: r, query: r.Intn(5) == 0, rel: relativeRefs && r.Intn(3) == 0}
+	home := r.Intn(simHosts)
+	other := (home + 1 + r.Intn(simHosts-1)) % simHosts
+	if r.Intn(8) == 0 {
+		home, other = 0, hostPortOnly // the same address under another port
+	}
+	ordered := r.Intn(2) == 0
+	kindRoot, kindPage, itemsKey := "Collection", "CollectionPage", "items"
+	if ordered {
+		kindRoot, kindPage, itemsKey = "OrderedCollection", "OrderedCollectionPage", "orderedItems"
+	}
+	np := 1 + r.Intn(6)
+	hostOf := make([]int, np)
+	for k := range hostOf {
+		hostOf[k] = pick(r, []int{home, home, home, other})
+	}
+	pageName := func(k int) string { return fmt.Sprintf("page%d", k) }
+	pageURL := func(k int) string { return g.url(hostOf[k], pageName(k)) }
+	emptyBias := r.Intn(3)
+	nn := 0
+	items := func(h int) []any {
+		n := r.Intn(4)
+		if r.Intn(3) < emptyBias {
+			n = 0
+		}
+		out := []any{}
+		for k := 0; k < n; k++ {
+			nn++
+			nh := pick(r, []int{h, h, home, other})
+			fields := map[string]any{"type": "Note", "id": g.url(nh, fmt.Sprintf("n%d", nn)), "content": "x"}
+			u := g.serve(nh, fmt.Sprintf("n%d", nn), fields)
+			out = append(out, g.refTo(h, u, fields))
+		}
+		return out
+	}
+	rootURL := g.url(home, "coll")
+	/* where the last page points */
+	last := weighted(r, 4, 2, 2, 2, 2, 1)
+	for k := np - 1; k >= 0; k-- {
+		h := hostOf[k]
+		page := map[string]any{"type": kindPage, itemsKey: items(h)}
+		switch weighted(r, 8, 4, 1) {
+		case 0:
+			page["id"] = pageURL(k)
+		case 2:
+			page["id"] = g.url((h+1)%simHosts, pageName(k)) // an id on a host that does not serve it
+		}
+		var next any
+		if k < np-1 {
+			next = g.vary(pageURL(k+1), h)
+			if g.rel && r.Intn(2) == 0 {
+				next = g.relative(pageURL(k+1), h) // the page's own id is what it is resolved against
+			}
+			if r.Intn(6) == 0 {
+				g.n++
+				next = g.redirect(pick(r, []int{home, other}), fmt.Sprintf("redir%d", g.n), pageURL(k+1))
+			}
+		} else {
+			switch last {
+			case 1:
+				next = pageURL(k) // to itself
+			case 2:
+				next = pageURL(0) // back to the first page
+			case 3:
+				next = rootURL // back to the root
+			case 4:
+				if k > 0 {
+					next = pageURL(k - 1) // A -> B -> A
+				}
+			case 5:
+				next = pick(r, []any{"https://{H0}/{OP}/no-such-page", 5, map[string]any{"type": "Note"}})
+			}
+		}
+		if next != nil {
+			page["next"] = next
+		}
+		if r.Intn(5) == 0 {
+			page["first"] = pick(r, []any{pageURL(0), rootURL, map[string]any{"type": kindPage, itemsKey: []any{"https://{H0}/{OP}/decoy"}}})
+		}
+		if r.Intn(5) == 0 {
+			page["totalItems"] = r.Intn(3)
+		}
+		g.quiet = r.Intn(12) != 0
+		g.serve(h, pageName(k), page)
+		g.quiet = false
+	}
+	root := map[string]any{"type": kindRoot, "id": rootURL, "totalItems": pick(r, []any{0, 7, 100000, "7", nil}), "first": g.vary(pageURL(0), home)}
+	if r.Intn(3) == 0 {
+		root[itemsKey] = items(home)
+	}
+	if r.Intn(6) == 0 {
+		root["next"] = pageURL(np - 1)
+	}
+	if r.Intn(8) == 0 {
+		delete(root, "id")
+	}
+	start := g.serve(home, "coll", root)
+	emit(Op{"op": "pubworld", "routes": g.routes, "start": start, "before": []any{}, "harvest": pick(r, []int{0, 1, 2, 3, 5, 8, 12, 20}), "more": moreAmounts(r), "parents": 0})
 }
